@@ -133,6 +133,11 @@ public:
     {
         using std::abs;
 
+        // Nothing is factorized until this function has finished: if it is left
+        // through an exception (zero initial vector, operator failure), the object
+        // must not keep the dimension of an earlier factorization
+        m_k = 0;
+
         m_fac_V.resize(m_n, m_m);
         m_fac_H.resize(m_m, m_m);
         m_fac_f.resize(m_n);
